@@ -668,3 +668,21 @@ v("c19-arg-kwargs-literal-complete", "C19", "KWARGS-COMPLETE", MS,
 v("c19-root-types-loop-break", "C19", "INDEPENDENT-KEYS", MS,
   "    query, mutation = schema_config[\"query\"], schema_config[\"mutation\"]\n",
   "    roots: dict = dict.fromkeys((\"query\", \"mutation\", \"subscription\"))\n    for operation in roots:\n        root = schema_config[operation]  # type: ignore\n        if root is None:\n            break\n        roots[operation] = root\n    query, mutation = schema_config[\"query\"], schema_config[\"mutation\"]\n")
+
+# -- round 4: C17 ------------------------------------------------------------------------------------------
+v("c17-int-literal-range-symmetric", "C17", "INT-RANGE-TABLE", T + "scalars.py",
+  "    num = int(value_node.value)\n    if not GRAPHQL_MIN_INT <= num <= GRAPHQL_MAX_INT:\n", "    num = int(value_node.value)\n    if abs(num) > GRAPHQL_MAX_INT:\n")
+v("c17-int-literal-range-two-tests", "C17", "INT-RANGE-TABLE", T + "scalars.py",
+  "    num = int(value_node.value)\n    if not GRAPHQL_MIN_INT <= num <= GRAPHQL_MAX_INT:\n", "    num = int(value_node.value)\n    if not (num >= GRAPHQL_MIN_INT and num <= GRAPHQL_MAX_INT):\n", expect="silent")
+v("c17-float-text-strips-exponent-zeros", "C17", "FLOAT-TEXT", U + "ast_from_value.py",
+  "            value = value.removesuffix(\".0\")\n", "            if \".\" in value:\n                value = value.rstrip(\"0\").rstrip(\".\")\n")
+v("c17-float-text-endswith-form", "C17", "FLOAT-TEXT", U + "ast_from_value.py",
+  "            value = value.removesuffix(\".0\")\n", "            if value.endswith(\".0\"):\n                value = value[:-2]\n", expect="silent")
+
+# -- round 4: C12 ------------------------------------------------------------------------------------------
+v("c12-usages-from-inner-handler", "C12", "NESTED-VISIT-NEUTRAL", V + "rules/no_undefined_variables.py",
+  "    def leave_operation_definition(", "    def enter_variable_definition(self, node: Any, *_args: Any) -> None:\n        self.context.get_variable_usages(_args[3][-1])\n\n    def leave_operation_definition(")
+v("c12-handler-returns-reported-error", "C12", "TYPE-WITNESS", V + "rules/known_operation_types.py",
+  "            self.report_error(\n", "            return self.report_error(  # noqa\n",
+  extra_edits=[{"file": V + "rules/__init__.py", "old": "    def report_error(self, error: GraphQLError) -> None:\n        \"\"\"Report a GraphQL error.\"\"\"\n        self.context.report_error(error)\n",
+                "new": "    def report_error(self, error: GraphQLError) -> GraphQLError:\n        \"\"\"Report a GraphQL error.\"\"\"\n        self.context.report_error(error)\n        return error\n"}])
